@@ -15,7 +15,7 @@ import (
 	"verifharness/gen"
 	"verifharness/hmods"
 	"verifharness/mt"
-	"verifharness/props/c14"
+	"verifharness/seedpool"
 )
 
 func init() {
@@ -54,43 +54,11 @@ type Witness struct {
 	Detail    string `json:"detail"`
 }
 
-// allTargets = hand-written seeds plus the well-formed messages of the C14 generators (per matcher and
-// configuration), which add e.g. HTTP/2 prior-knowledge requests, RDP tokens, OpenVPN auth/crypt messages.
-func allTargets(seed int64) []*gen.Target {
-	out := gen.Targets()
-	for _, name := range []string{"http", "rdp", "dns", "openvpn", "winbox", "postgres", "socks4", "socks5", "proxy_protocol", "ssh", "xmpp", "regexp", "wireguard"} {
-		byCfg := map[string]*gen.Target{}
-		var order []string
-		for _, sd := range c14.Seeds(name, seed, 60) {
-			if strings.Contains(sd.Class, "ts-now") || len(sd.Input) == 0 {
-				continue
-			}
-			key := fmt.Sprintf("%s|%v", sd.Config, sd.Opts.UDP)
-			t := byCfg[key]
-			if t == nil {
-				if len(byCfg) >= 12 {
-					continue
-				}
-				t = &gen.Target{Matcher: name, Config: sd.Config, UDP: sd.Opts.UDP, Stream: !sd.Opts.UDP, Label: fmt.Sprintf("c14#%d", len(byCfg)+1)}
-				byCfg[key] = t
-				order = append(order, key)
-			}
-			if len(t.Seeds) < 8 {
-				t.Seeds = append(t.Seeds, sd.Input)
-			}
-		}
-		for _, k := range order {
-			out = append(out, byCfg[k])
-		}
-	}
-	return out
-}
-
 func run(c *fw.Ctx) {
 	hmods.Quiet(c.OutDir + "/caddyhome")
 	nStreams := c.Pick(250, 5000)
 	idx := 0
-	for _, t := range allTargets(c.Seed) {
+	for _, t := range seedpool.Targets(c.Seed) {
 		if strings.HasPrefix(t.Label, "c14#") {
 			nStreams = c.Pick(60, 1200)
 		} else {
@@ -255,7 +223,7 @@ func replay(c *fw.Ctx, raw json.RawMessage) {
 	}
 	hmods.Quiet(c.OutDir + "/caddyhome")
 	stream, _ := hex.DecodeString(w.StreamHex)
-	for _, t := range allTargets(c.Seed) {
+	for _, t := range seedpool.Targets(c.Seed) {
 		if t.Name() != w.Target {
 			continue
 		}
